@@ -50,24 +50,48 @@ package keeper
 //@   ensures mirrors_running: foreign("GetRequestContext", 1, 1) && foreign("GetRequestContext", 1, 0).State == RUNNING ==> mirrors(name, RUNNING, PAUSED)
 //@ end
 
-// History helpers (iterator loops). Only their frame is specified here; the history bound is not claimed.
+// History size (C17, count level): CNT(values, feed) is the number of stored values of a feed, defined as the length of
+// the prefix enumeration (A-ITER); removing a present key decreases it by one, adding an absent key increases it by one.
+//@ define CNT(F, n) = uf("value_count", F, n)
+//@ axiom cntDel(F, n, c)
+//@   requires has(F, n, c)
+//@   ensures CNT(del(F, n, c), n) == CNT(F, n) - 1
+//@ axiom cntSet(F, n, c, v)
+//@   ensures CNT(set(F, n, c, v), n) == CNT(F, n) + ite(has(F, n, c), 0, 1)
+//@ axiom cntNonNeg(F, n)
+//@   ensures CNT(F, n) >= 0
+
 //@ func Keeper.getFeedValuesCnt
 //@   property C17
 //@   returns i
-//@   invariant #1 t: true
+//@   invariant #1 pos: 0 <= it_idx && it_idx <= it_n && i == it_idx
+//@   witness count_def: CNT(values, feedName) == it_n
+//@   ensures counts: i == CNT(values, feedName)
 //@ end
+
 //@ func Keeper.deleteOldestFeedValue
 //@   property C17
+//@   uses cntDel(values, feedName, 0)
+//@   uses cntNonNeg(values, feedName)
 //@   modifies values
-//@   invariant #1 t: true
+//@   invariant #1 pos:  0 <= it_idx && it_idx <= it_n && i == it_idx + 1 && it_idx <= max(delta, 0)
+//@   invariant #1 left: forall j:Int :: it_idx <= j && j < it_n ==> has(values, feedName, it_seq[j].k1)
+//@   invariant #1 cnt:  CNT(values, feedName) == old(CNT(values, feedName)) - it_idx && it_n == old(CNT(values, feedName))
+//@   invariant #1 others: forall n:Str :: forall c:Int :: n != feedName ==> has(values, n, c) == old(has(values, n, c)) && get(values, n, c) == old(get(values, n, c))
+//@   witness count_def: old(CNT(values, feedName)) == it_n
+//@   ensures trimmed: CNT(values, feedName) == old(CNT(values, feedName)) - min(max(delta, 0), old(CNT(values, feedName)))
+//@   ensures others:  forall n:Str :: forall c:Int :: n != feedName ==> has(values, n, c) == old(has(values, n, c)) && get(values, n, c) == old(get(values, n, c))
 //@ end
 
 //@ func Keeper.EditFeed
 //@   property C17
 //@   returns err
+//@   requires msg.LatestHistory <= 100
+//@   requires has(feeds, msg.FeedName) ==> get(feeds, msg.FeedName).FeedName == msg.FeedName
 //@   modifies feeds, byCtx, values, bal, supply
 //@   invariant #1 t: true
 //@   ensures creator_only: err == nil ==> old(has(feeds, msg.FeedName)) && msg.Creator == old(get(feeds, msg.FeedName)).Creator
+//@   ensures history_trimmed: err == nil && msg.LatestHistory > 0 ==> CNT(values, old(get(feeds, msg.FeedName)).FeedName) == min(old(CNT(values, get(feeds, msg.FeedName).FeedName)), msg.LatestHistory)
 //@   ensures identity: err == nil ==> get(feeds, msg.FeedName).Creator == old(get(feeds, msg.FeedName)).Creator
 //@                               && get(feeds, msg.FeedName).RequestContextID == old(get(feeds, msg.FeedName)).RequestContextID
 //@                               && get(feeds, msg.FeedName).AggregateFunc == old(get(feeds, msg.FeedName)).AggregateFunc
@@ -76,6 +100,10 @@ package keeper
 // A completed batch stores one value for the feed, stamped with the block time, under the batch counter (C17).
 //@ func Keeper.SetFeedValue
 //@   property C17
+//@   requires latestHistory >= 1 && latestHistory <= 100
+//@   uses cntSet(values, feedName, 0, value)
+//@   uses cntNonNeg(values, feedName)
 //@   modifies values
-//@   ensures stored: has(values, feedName, batchCounter) && get(values, feedName, batchCounter) == value
+//@   ensures stored:  has(values, feedName, batchCounter) && get(values, feedName, batchCounter) == value
+//@   ensures bounded: CNT(values, feedName) <= latestHistory
 //@ end
